@@ -1,5 +1,6 @@
 import Rfsm.Proofs.HistoryLemmas
 import Rfsm.Proofs.TreeLemmas
+import Rfsm.Proofs.RootLemmas
 /-!
 The history table of a conformant document: every history pseudo-state is owned by exactly one
 state (its parent), so after `exitStates` each entry is either the value recorded in this
@@ -72,5 +73,29 @@ theorem exitStates_hv_cases (env : Env σ) (d : Doc) (hc : conformantB d = true)
     apply exitStates_keeps
     intro sid hs hh
     exact hex ⟨sid, hs, hh⟩
+
+end Rfsm.Interp
+
+namespace Rfsm.Interp
+
+/-- restoring also enters the ancestors: for every recorded state, all its proper ancestors below
+    the history state's parent are in the entry set -/
+theorem history_restores_ancestors {d : Doc} (hv : Table) (f h : Nat) (acc : EntryAcc) (vs : List Nat)
+    (hh : isHistoryState d h = true) (hval : tget hv h = some vs) :
+    ∀ v ∈ vs, ∀ a ∈ getProperAncestors d v (getState d h).parent,
+      a ∈ (addDesc d hv (f + 2) h acc).toEnter := by
+  intro v hv' a ha
+  unfold addDesc
+  simp only [hh, ↓reduceIte, hval]
+  clear hval
+  generalize vs.foldl (fun a s => addDesc d hv (f + 1) s a) acc = acc0
+  induction vs generalizing acc0 with
+  | nil => cases hv'
+  | cons w vs ih =>
+    simp only [List.foldl_cons]
+    rcases List.mem_cons.1 hv' with rfl | hm
+    · refine foldl_inv (fun (x : EntryAcc) => a ∈ x.toEnter) _ (fun b s hb => addAnc_mono hv _ s _ b a hb) _ _ ?_
+      exact addAnc_adds hv f v _ acc0 a ha
+    · exact ih hm _
 
 end Rfsm.Interp
